@@ -83,15 +83,26 @@ func VX_C25_waitgroup_sequence() {
 	for i := 0; i < vxSeqLen; i++ {
 		switch vxChoose("op"+string(rune('0'+i)), 4) {
 		case 0:
-			w.Start()
+			err := w.Start()
+			vxAssert(err.IsUndefined(), "waitgroup/start-succeeds")
 			count++
 		case 1:
-			w.End()
-			count--
+			err := w.End()
+			if count == 0 {
+				vxAssert(!err.IsUndefined(), "waitgroup/end-below-zero-is-an-elk-error")
+			} else {
+				vxAssert(err.IsUndefined(), "waitgroup/end-succeeds")
+				count--
+			}
 		case 2:
 			n := vxChoose("n"+string(rune('0'+i)), 3)
-			w.Remove(n)
-			count -= n
+			err := w.Remove(n)
+			if n > count {
+				vxAssert(!err.IsUndefined(), "waitgroup/remove-below-zero-is-an-elk-error")
+			} else {
+				vxAssert(err.IsUndefined(), "waitgroup/remove-succeeds")
+				count -= n
+			}
 		case 3:
 			if count != 0 {
 				return // Wait with a positive counter and no other thread blocks forever
